@@ -79,11 +79,12 @@ def _sint(n, size, little):
 
 
 class _Enc:
-    def __init__(self, offset, little):
+    def __init__(self, offset, little, fd_base=0, raw_fds=False):
         self.out = bytearray()
         self.base = offset
         self.little = little
-        self.nfds = 0
+        self.nfds = fd_base          # descriptors already in the out-of-band array before this block
+        self.raw_fds = raw_fds       # True: the spec value of an 'h' IS the index to write
 
     def pos(self):
         return self.base + len(self.out)
@@ -109,8 +110,11 @@ class _Enc:
             bits = struct.unpack('>Q', struct.pack('>d', sv))[0]
             self.out += _uint(bits, 8, le)
         elif c == 'h':
-            self.out += _uint(self.nfds, 4, le)
-            self.nfds += 1
+            if self.raw_fds:
+                self.out += _uint(sv, 4, le)
+            else:
+                self.out += _uint(self.nfds, 4, le)
+                self.nfds += 1
         elif c in 'so':
             b = sv.encode('utf-8')
             if 0 in b:
@@ -150,12 +154,14 @@ class _Enc:
             raise RefError('unknown type code %r' % (c,))
 
 
-def encode(tys, svs, offset=0, little=True):
+def encode(tys, svs, offset=0, little=True, fd_base=0, raw_fds=False):
     """The bytes of the values `svs` of types `tys` when the first byte is written at `offset`
-    (leading alignment padding of the first value included, as in a message body)."""
+    (leading alignment padding of the first value included, as in a message body).  Descriptors are
+    numbered in order of appearance starting at `fd_base`; with `raw_fds` the spec value of an `h` is the
+    index itself (the specification only says "index into the out-of-band array")."""
     if len(tys) != len(svs):
         raise RefError('arity')
-    enc = _Enc(offset, little)
+    enc = _Enc(offset, little, fd_base, raw_fds)
     for ty, sv in zip(tys, svs):
         enc.value(ty, sv)
     return bytes(enc.out)
